@@ -122,6 +122,7 @@ def main(argv=None):
     classes = collections.Counter()
     monitors = collections.Counter()
     samples = []
+    per_shard_samples = []
     violations = []
     nviol = 0
     viol_kinds = collections.Counter()
@@ -132,17 +133,16 @@ def main(argv=None):
     truncated = 0
     for s, r in zip(shards, results):
         if r.get("status") != "done":
-            inconclusive.append(f"shard {s.get('i')} ({s.get('kind')}): {r.get('status')}: {str(r.get('error'))[-600:]}")
+            inconclusive.append(f"shard {s.get('i')} ({s.get('kind')}): {r.get('status')}: {str(r.get("error"))[-300:].replace("\n", " | ")}")
             if r.get("status") in ("watchdog", "crashed"):
+                per_shard_samples.append([])
                 continue
         evaluations += r.get("evaluations", 0)
         fps.update(r.get("fps", ()))
         bulk_nt += r.get("bulk_nontrivial", 0)
         classes.update(r.get("classes", {}))
         monitors.update(r.get("monitors", {}))
-        for smp in r.get("samples", []):
-            if len(samples) < 6:
-                samples.append(smp)
+        per_shard_samples.append(list(r.get("samples", [])))
         violations.extend(r.get("violations", []))
         nviol += r.get("nviol", 0)
         for kind, key, n in r.get("viol_kinds", []):
@@ -154,6 +154,12 @@ def main(argv=None):
             exhaustive[k] = exhaustive.get(k, True) and v
         truncated += 1 if r.get("truncated") else 0
 
+    # samples: round-robin over shards so that every workload kind is represented
+    sample_kinds = set()
+    for s, lst in zip(shards, per_shard_samples):
+        if lst and s.get("kind") not in sample_kinds and len(samples) < 10:
+            sample_kinds.add(s.get("kind"))
+            samples.append(lst[0])
     distinct_nontrivial = len(fps) + bulk_nt
 
     if not args.replay:
